@@ -199,6 +199,30 @@ pub fn run(ctx: &Ctx, rep: &mut Report) {
         rep.case(&src, true);
         pipeline(rep, &src);
     }
+    // ---- higher-order built-ins and operators with callbacks that allocate, fail or re-enter ----------
+    {
+        let callbacks = [
+            "s => s != \"\"", "s => \"lit\"", "s => [s]", "s => {k: s}", "s => typeof(s)", "s => split(\"a,b\", \",\")", "(...r) => r", "(s, i?) => [s, i]",
+            "s => to_string(s) + \"x\"", "s => [s] via (t => [t])", "s => map([s], t => {a: t})", "s => sort_by([s, s], t => \"k\")", "s => s.missing", "s => s + 1",
+            "s => undefined_name", "s => if s == 1 then true else \"no\"", "s => do {\n  q = [s]\n  return len(q) > 0\n}", "s => every([s], t => t == s)", "(a, s) => [a, s]",
+            "(a, s, i) => {acc: a, s, i}", "s => null", "s => true", "s => 0/0", "len", "typeof", "to_string", "max", "5",
+        ];
+        let lists = ["[\"a\", \"b\"]", "[1, 2, 3]", "[]", "[[1], [2]]", "[{a: 1}, {b: 2}]", "[null, true, 1, \"s\"]", "range(12)", "\"text\"", "{a: 1}"];
+        let forms = [
+            "map(L, F)", "filter(L, F)", "every(L, F)", "some(L, F)", "reduce(L, F, 0)", "reduce(L, F, [])", "sort_by(L, F)", "group_by(L, F)", "count_by(L, F)",
+            "L via F", "L where F", "L into F", "every(L, F) and some(L, F)", "map(filter(L, F), F)",
+        ];
+        for f in callbacks.iter() {
+            for l in lists.iter() {
+                for form in forms.iter() {
+                    let src = form.replace('L', l).replace('F', &format!("({})", f));
+                    rep.case(&src, true);
+                    pipeline(rep, &src);
+                }
+            }
+        }
+    }
+
     // ---- error paths with long, non-ASCII values ---------------------------------------------------
     // every construct that reports an error mentioning (part of) a value, with texts whose
     // characters are 1 to 4 bytes long at every alignment: a message that cuts or pads by
@@ -214,6 +238,7 @@ pub fn run(ctx: &Ctx, rep: &mut Report) {
             }
         }
         let extra: Vec<String> = vec![
+            "\"\"".to_string(), "\"µm\"".to_string(), "\"Ångström\"".to_string(), "\"€\"".to_string(), "\" \"".to_string(),
             format!("[{}]", (0..40).map(|i| format!("\"é{}\"", i)).collect::<Vec<_>>().join(", ")),
             format!("{{{}}}", (0..30).map(|i| format!("\"ké{}\": \"日{}\"", i, i)).collect::<Vec<_>>().join(", ")),
             "123456789012345678901234567890123456789012345678901234567890123456789".to_string(),
